@@ -4,7 +4,7 @@
    every key type whose comparison is a strict weak order (SWO), hence for all six Go tree types (C11). *)
 From Coq Require Import ZArith NArith List Bool.
 From GB Require Import Model Spec Inv Order OrderProof SearchProof SpecLaws InvProof SearchScanProof
-     UpsertProof DeleteProof HistoryProof KeyOrders KnownFindings Conc GI LockInv LockProof ConcProps Frame FrameInv FrameProof SoloProof CInv CIDef NoDeadlock.
+     UpsertProof DeleteProof HistoryProof KeyOrders KnownFindings Conc GI LockInv LockProof ConcProps Frame FrameInv FrameProof SoloProof CInv CIDef NoDeadlock Lin LinDef Final.
 Import ListNotations.
 Open Scope nat_scope.
 
@@ -384,3 +384,59 @@ Theorem C06_no_deadlock_in_invariant_states :
   CI2 ltb order s -> (exists t, unfinished s t = true) -> exists t, enabled order s t = true.
 Proof. exact ci2_no_deadlock. Qed.
 Print Assumptions C06_no_deadlock_in_invariant_states.
+
+(* ====================== the concurrent theorems, for every schedule ======================
+   K, V, ltb arbitrary with SWO ltb; order even and >= 4; progs any finite set of client programs (point
+   operations and scans) with distinct thread ids; sched ANY list of thread ids (every interleaving at
+   lock-acquisition granularity).  [exec] runs the schedule on the concurrent model from the empty tree. *)
+
+(* C08 (concurrent) / C02 (chain): in every reachable state node identities are unique, the tree is ordered with
+   separator bounds, all leaves are at the same depth, no node exceeds the order, and the stored leaf chain is
+   the in-order succession of the leaves ending at the last one *)
+Theorem C08_shape_invariant_every_reachable_state :
+  forall (K V : Type) (ltb : K -> K -> bool), SWO ltb -> forall order, Nat.even order = true -> 4 <= order ->
+  forall (progs : list (tid * list (cop K V))) sched, NoDup (map fst progs) ->
+  GI ltb order (fst (exec ltb order (init_st progs) sched)).
+Proof. exact final_GI_reachable. Qed.
+Print Assumptions C08_shape_invariant_every_reachable_state.
+
+(* ... together with the lock table, every program counter consistent with the tree, and minimum occupancy
+   everywhere except at the one node a Delete in flight is about to rebalance (so: everywhere when quiescent) *)
+Theorem C08_full_invariant_every_reachable_state :
+  forall (K V : Type) (ltb : K -> K -> bool), SWO ltb -> forall order, Nat.even order = true -> 4 <= order ->
+  forall (progs : list (tid * list (cop K V))) sched, NoDup (map fst progs) ->
+  CIall ltb order (fst (exec ltb order (init_st progs) sched)).
+Proof. exact final_invariant_reachable. Qed.
+Print Assumptions C08_full_invariant_every_reachable_state.
+
+(* C01 under concurrency: no step of any thread in any reachable state panics (no index out of range, no
+   "no children", no "no siblings", no fuel exhaustion) *)
+Theorem C03_no_panic_under_any_schedule :
+  forall (K V : Type) (ltb : K -> K -> bool), SWO ltb -> forall order, Nat.even order = true -> 4 <= order ->
+  forall (progs : list (tid * list (cop K V))) sched me p, NoDup (map fst progs) ->
+  cstep ltb order (fst (exec ltb order (init_st progs) sched)) me <> Crash p.
+Proof. exact final_no_crash. Qed.
+Print Assumptions C03_no_panic_under_any_schedule.
+
+(* C06: no deadlock: in every reachable state, if some thread has not finished its program, some thread can move *)
+Theorem C06_deadlock_free :
+  forall (K V : Type) (ltb : K -> K -> bool), SWO ltb -> forall order, Nat.even order = true -> 4 <= order ->
+  forall (progs : list (tid * list (cop K V))) sched, NoDup (map fst progs) ->
+  let s := fst (exec ltb order (init_st progs) sched) in
+  (exists t, unfinished s t = true) -> exists t, enabled order s t = true.
+Proof. exact final_no_deadlock. Qed.
+Print Assumptions C06_deadlock_free.
+
+(* C03 / C05: linearizability by linearization points.  [iexec] runs the schedule on the model together with the
+   specification's map and a per-thread record of the specification's answer at the linearization point of the
+   call in flight.  For every reachable instrumented state and every next step: the specification's map IS the
+   tree's contents; a call is linearized at most once, after its invocation; and a point operation (Insert,
+   Update, Delete, Search) that returns, returns exactly the answer the specification gave at its linearization
+   point -- which lies between its invocation and its return.  Update's linearization point is its store, with
+   the callback argument equal to the specification's current binding: an atomic read-modify-write. *)
+Theorem C03_linearizable :
+  forall (K V : Type) (ltb : K -> K -> bool), SWO ltb -> forall order, Nat.even order = true -> 4 <= order ->
+  forall (progs : list (tid * list (cop K V))) sched me, NoDup (map fst progs) ->
+  lin_step_ok ltb order (iexec ltb order (iinit progs) sched) me.
+Proof. exact final_linearizable. Qed.
+Print Assumptions C03_linearizable.
